@@ -397,3 +397,8 @@ func TestSub_genbank_text(t *testing.T) { vk.RunRapid(t, subGenBank) }
 func TestSub_gff_text(t *testing.T)     { vk.RunRapid(t, subGff) }
 
 func TestReplay(t *testing.T) { vk.Replay(t) }
+
+// native coverage-guided fuzzing over the same generator and oracle (thorough tier)
+var subFuzz = vk.Register(&vk.Sub[Case]{Name: "value_fuzz", Gen: genValue, Check: check})
+
+func FuzzSub_value_fuzz(f *testing.F) { vk.RunFuzz(f, subFuzz) }
